@@ -473,6 +473,15 @@ fn main_random(budget: u64) {
         (b"\nMODULE Linux x86_64 000 a\nPUBLIC 50 0 p\n", false),
         (b"MODULE Linux x86_64 000 a\nSTACK CFI INIT 10 10 .cfa: $rsp 8 +\n\nSTACK CFI 12 .cfa: $rsp 16 +\nPUBLIC 50 0 p\n\n", false),
         (b"MODULE Linux x86_64 000 a\nFUNC 10 10 0 f\n10 10 99999999999999999999 0\n", false),
+        // whitespace-only lines are not blank lines
+        (b"MODULE Linux x86_64 000 a\nFUNC 10 10 0 f\n10 10 1 0\n  \nPUBLIC 50 0 p\n", false),
+        (b"MODULE Linux x86_64 000 a\nFUNC 10 10 0 f\n10 10 1 0\n\t\nPUBLIC 50 0 p\n", false),
+        (b"MODULE Linux x86_64 000 a\nFUNC 10 10 0 f\n10 10 1 0\n \n", false),
+        // STACK WIN records of one type at one address with different sizes, nested and staircase overlaps
+        (b"MODULE windows x86 000 a\nSTACK WIN 4 10 10 0 0 0 0 0 0 1 $eip 4 + ^ =\nSTACK WIN 4 10 20 0 0 0 0 0 0 1 $eip 8 + ^ =\nPUBLIC 50 0 p\n", true),
+        (b"MODULE windows x86 000 a\nSTACK WIN 4 10 20 0 0 0 0 0 0 1 $eip 4 + ^ =\nSTACK WIN 4 10 10 0 0 0 0 0 0 1 $eip 8 + ^ =\nSTACK WIN 4 18 20 0 0 0 0 0 0 1 $eip 8 + ^ =\n", true),
+        (b"MODULE windows x86 000 a\nSTACK WIN 0 10 10 0 0 0 0 0 0 0 1\nSTACK WIN 0 10 8 0 0 0 0 0 0 0 0\nSTACK WIN 0 10 10 0 0 0 0 0 0 0 1\n", true),
+        (b"", false),
         // fields that are "everything up to the next space" must not swallow a line end
         (b"MODULE Linux\nx86 arch ffff0000 bar\nFILE 1 a\n", false),
         (b"MODULE Linux x86\n64 ffff0000 bar\nPUBLIC 10 0 p\n", false),
@@ -487,6 +496,18 @@ fn main_random(budget: u64) {
                 let sched: Box<dyn FnMut(usize, usize) -> usize> = Box::new(move |_r, _o| { step += 1; if step == 1 { s.max(1) } else if step == 2 && extra { 1 } else { usize::MAX } });
                 run_one(&log, id, data, *expect_ok, 8, sched);
             }
+        }
+    }
+    // names whose length sits around 4 KiB with a multi-byte character straddling each nearby byte offset
+    for pad in 4088usize..=4100 {
+        for rec in ["FUNC 10 10 0 ", "PUBLIC 10 0 ", "FILE 1 ", "INLINE_ORIGIN 1 "] {
+            let mut data: Vec<u8> = b"MODULE Linux x86_64 000 a\n".to_vec();
+            data.extend_from_slice(rec.as_bytes());
+            data.extend(std::iter::repeat(b'a').take(pad));
+            data.extend_from_slice("\u{e9}\u{4e2d}\u{1F600}tail".as_bytes());
+            data.push(b'\n');
+            id += 1;
+            run_one(&log, id, &data, true, 30, Box::new(|_r, o| o));
         }
     }
     for (k, long) in [163_841usize, 163_840 + 200, 170_000, 200_000, 163_839].iter().enumerate() {
